@@ -13,8 +13,8 @@ PV(p) == p[2]
 CRe(p) == p[2]
 CIm(p) == p[3]
 Cell(c) == c.cell
-\* built-in crystals carry single-precision cells and a volume printed with 6 decimals by the generator
-GeoTol(ev) == IF ev.builtin = 1 THEN F("3e-6") ELSE F("1e-9")
+\* built-in crystals carry single-precision cells and a single-precision volume computed by the generator from the double-precision cell
+GeoTol(ev) == IF ev.builtin = 1 THEN F("1e-6") ELSE F("1e-9")
 Tol == F("1e-9")
 chk(c, msg) == IF c THEN {} ELSE {msg}
 ValidFlags(fl) == fl[1] \in {0, 1, 2} /\ fl[2] \in {0, 2} /\ fl[3] \in {0, 2}
